@@ -452,7 +452,7 @@ def entry_points(cls, col='c'):
             ('table.<t>.col', lambda: getattr(getattr(sb.table, t), col), None),
             ('SQLConstant', lambda: sb.SQLConstant('%s.%s' % (t, col)), None),
             ('Alias(T).q.col', lambda: getattr(al.q, col), al),
-            ('T.q.col + <str> (SQLOp)', lambda: getattr(cls.q, col) + '', None)]
+            ('CONCAT(T.q.col, <str>)', lambda: sb.CONCAT(getattr(cls.q, col), ''), None)]
 
 
 def run_entry_points(ctx):
